@@ -247,7 +247,9 @@ class TileLayer(object):
         return self.md.get('format', 'image/png')
 
     def _internal_tile_coord(self, tile_request, use_profiles=False):
-        tile_coord = self.grid.internal_tile_coord(tile_request.tile, use_profiles)
+        # WMTS advertises every level of the grid as a TileMatrix: no sqrt2 level skip for these requests
+        all_levels = getattr(tile_request, 'all_levels', False)
+        tile_coord = self.grid.internal_tile_coord(tile_request.tile, use_profiles, all_levels=all_levels)
         if tile_coord is None:
             raise RequestError('The requested tile is outside the bounding box'
                                ' of the tile map.', request=tile_request,
@@ -506,20 +508,23 @@ class TileServiceGrid(object):
             tile_sets.append((order, self.grid.resolutions[level]))
         return tile_sets
 
-    def internal_tile_coord(self, tile_coord, use_profiles):
+    def internal_tile_coord(self, tile_coord, use_profiles, all_levels=False):
         """
         Converts public tile coords to internal tile coords.
 
         :param tile_coord: the public tile coord
         :param use_profiles: True if the tile service supports global
                              profiles (see `mapproxy.core.server.TileServer`)
+        :param all_levels: True if the public level addresses every level of
+                           the grid (WMTS), False if every other level of a
+                           sqrt2 grid is hidden (TMS, KML, see `tile_sets`)
         """
         x, y, z = tile_coord
         if int(z) < 0:
             return None
         if use_profiles and self._skip_first_level:
             z += 1
-        if self._skip_odd_level:
+        if self._skip_odd_level and not all_levels:
             z *= 2
         return self.grid.limit_tile((x, y, z))
 
